@@ -960,6 +960,15 @@ def rule_update_registrations():
             kws = {k.arg for k in n.keywords}
             if "broadcast" not in kws:
                 failing.append(site + " (no broadcast= : indices and updates reach the scatter primitive with different shapes)")
+            # the scatter primitive is the numpy function whose documented semantics is the contract of C14.P.bcast's callee: np.put (set), np.add.at
+            # (accumulating add), np.subtract.at (accumulating subtract in the TARGET's arithmetic) - a composed lambda is outside that contract
+            par = parents(cls)
+            a = par.get(n)
+            tgt = ast.unparse(a.targets[0]) if isinstance(a, ast.Assign) else "?"
+            want = {"self.set_at": "np.put", "self.add_at": "np.add.at", "self.subtract_at": "np.subtract.at"}.get(tgt)
+            prim = ast.unparse(n.args[0]) if n.args else "?"
+            if want is None or prim != want:
+                failing.append(site + f" ({tgt} is registered with the primitive `{prim[:60]}`, expected {want})")
     if len(sites) != 3:
         failing.append(f"{rel(p)}: expected 3 update_at registrations, found {len(sites)}")
     return not failing, sites, failing
